@@ -5,6 +5,18 @@ from __future__ import annotations
 BATCH_BASE = 1_000_000
 
 PLANS = {
+    "C20": {
+        "quick": [("hist", 320)],
+        "thorough": [("hist", 12000)],
+    },
+    "C15": {
+        "quick": [("hist", 900)],
+        "thorough": [("hist", 25000)],
+    },
+    "C12": {
+        "quick": [("hist", 2500)],
+        "thorough": [("hist", 60000)],
+    },
     "C13": {
         "quick": [("hist", 900), ("codec", 600)],
         "thorough": [("hist", 20000), ("codec", 12000)],
